@@ -152,7 +152,11 @@ fn invalid_args(ident_name: &IdentName, call: &CallExpr) -> bool {
         } else if args_array.spread.is_some() {
             return false;
         }
+
+        // the argument list is not an array literal: its elements can not be reported
+        return true;
     }
 
-    true
+    // only the this argument: there is nothing to expand
+    false
 }
